@@ -7,6 +7,7 @@
 -/
 import Prtpy
 import PrtpyProofs.Oracle
+import PrtpyProofs.Part
 
 namespace Prtpy.Scale
 open Prtpy
@@ -123,17 +124,45 @@ theorem opt123 : IsOptimalValue .minLargest 2 [1, 2, 3] 3 := by
 example : IsOptimalValue .minLargest 2 [5, 10, 15] 15 := by
   exact isOptimal_scale 5 opt123
 
-/-- **B2 for the oracle.** -/
-theorem optValue_scale (o : Objective) {k : Nat} (hk : 0 < k) (c : Nat) (vals : List Nat) :
-    optValue o k (vals.map (c * ·)) = (optValue o k vals).map ((c : Int) * ·) := by
-  obtain ⟨x, hx, hox⟩ := Oracle.optValue_spec o vals hk
-  obtain ⟨y, hy, hoy⟩ := Oracle.optValue_spec o (vals.map (c * ·)) hk
-  rw [hx, hy, Oracle.isOptimalValue_unique hoy (isOptimal_scale c hox)]
+/-! with zero bins the oracle has an answer only for the empty list -/
+
+theorem oracleLayer_zero (v : Nat) (cur : List (List Nat)) : oracleLayer 0 v cur = [] := by
+  have : (cur.flatMap fun st => (List.range 0).map fun i => sortAsc id (st.modify i (· + v))) = [] := by
+    simp
+  unfold oracleLayer
+  rw [this]
+  simp [dedupAdj]
+
+theorem foldl_oracleLayer_zero (vs : List Nat) : vs.foldl (fun cur value => oracleLayer 0 value cur) [] = [] := by
+  induction vs with
+  | nil => rfl
+  | cons v vs ih => rw [List.foldl_cons, oracleLayer_zero, ih]
+
+theorem optValue_zero_bins_cons (o : Objective) (v : Nat) (vs : List Nat) : optValue o 0 (v :: vs) = none := by
+  unfold optValue oracleFinal
+  rw [List.foldl_cons, oracleLayer_zero, foldl_oracleLayer_zero]
   rfl
+
+/-- **B2 for the oracle** (any number of bins, any factor). -/
+theorem optValue_scale (o : Objective) (k c : Nat) (vals : List Nat) :
+    optValue o k (vals.map (c * ·)) = (optValue o k vals).map ((c : Int) * ·) := by
+  rcases Nat.eq_zero_or_pos k with rfl | hk
+  · cases vals with
+    | nil =>
+      have h0 : optValue o 0 [] = some (o.value [] false) := rfl
+      rw [List.map_nil, h0, Option.map_some, ← value_scale]
+      rfl
+    | cons v vs =>
+      rw [List.map_cons, optValue_zero_bins_cons, optValue_zero_bins_cons]
+      rfl
+  · obtain ⟨x, hx, hox⟩ := Oracle.optValue_spec o vals hk
+    obtain ⟨y, hy, hoy⟩ := Oracle.optValue_spec o (vals.map (c * ·)) hk
+    rw [hx, hy, Oracle.isOptimalValue_unique hoy (isOptimal_scale c hox)]
+    rfl
 
 /-- non-vacuity -/
 example : optValue .minDiff 3 ([4, 5, 6, 7, 8].map (3 * ·)) = (optValue .minDiff 3 [4, 5, 6, 7, 8]).map (3 * ·) :=
-  optValue_scale .minDiff (by decide) 3 [4, 5, 6, 7, 8]
+  optValue_scale .minDiff 3 3 [4, 5, 6, 7, 8]
 
 /-! ### B3: reordering the values -/
 
@@ -190,16 +219,23 @@ theorem isOptimal_perm {o : Objective} {k : Nat} {vals₁ vals₂ : List Nat} {x
 example : IsOptimalValue .minLargest 2 [3, 1, 2] 3 := by
   exact isOptimal_perm (by decide) opt123
 
-/-- **B3 for the oracle.** -/
-theorem optValue_perm (o : Objective) {k : Nat} (hk : 0 < k) {vals₁ vals₂ : List Nat} (hp : vals₁.Perm vals₂) :
+/-- **B3 for the oracle** (any number of bins). -/
+theorem optValue_perm (o : Objective) (k : Nat) {vals₁ vals₂ : List Nat} (hp : vals₁.Perm vals₂) :
     optValue o k vals₁ = optValue o k vals₂ := by
-  obtain ⟨x, hx, hox⟩ := Oracle.optValue_spec o vals₁ hk
-  obtain ⟨y, hy, hoy⟩ := Oracle.optValue_spec o vals₂ hk
-  rw [hx, hy, Oracle.isOptimalValue_unique (isOptimal_perm hp hox) hoy]
+  rcases Nat.eq_zero_or_pos k with rfl | hk
+  · cases vals₁ with
+    | nil => rw [hp.nil_eq]
+    | cons v vs =>
+      cases vals₂ with
+      | nil => exact absurd hp.eq_nil (by simp)
+      | cons w ws => rw [optValue_zero_bins_cons, optValue_zero_bins_cons]
+  · obtain ⟨x, hx, hox⟩ := Oracle.optValue_spec o vals₁ hk
+    obtain ⟨y, hy, hoy⟩ := Oracle.optValue_spec o vals₂ hk
+    rw [hx, hy, Oracle.isOptimalValue_unique (isOptimal_perm hp hox) hoy]
 
 /-- non-vacuity -/
 example : optValue .minDiff 3 [4, 5, 6, 7, 8] = optValue .minDiff 3 [8, 4, 7, 5, 6] :=
-  optValue_perm .minDiff (by decide) (by decide)
+  optValue_perm .minDiff 3 (by decide)
 
 /-! ### B4: zero-valued items -/
 
@@ -229,8 +265,9 @@ theorem sumsOf_append_zeros (k : Nat) {vals asg : List Nat} (z : Nat) (asg' : Li
 
 /-- **B4.** Adding zero-valued items does not change the optimum.
 
-    The statement requested in the task has no hypothesis `0 < k`; it is false for `k = 0`
-    (see the counterexample below): the empty list has the (only) assignment `[]` into zero bins, with optimum `0`,
+    Original statement (false for `k = 0`, `vals = []`, `z = 1`; see the counterexample below):
+      `isOptimal_zeros : IsOptimalValue o k vals x → IsOptimalValue o k (vals ++ List.replicate z 0) x`.
+    With zero bins the empty list has the (only) assignment `[]` into zero bins, with optimum `0`,
     whereas `[0]` has no assignment into zero bins at all.  `0 < k` is exactly what is missing. -/
 theorem isOptimal_zeros_partial {o : Objective} {k : Nat} {vals : List Nat} {x : Int} (hk : 0 < k) (z : Nat)
     (h : IsOptimalValue o k vals x) : IsOptimalValue o k (vals ++ List.replicate z 0) x := by
@@ -249,6 +286,23 @@ theorem isOptimal_zeros_partial {o : Objective} {k : Nat} {vals : List Nat} {x :
     rw [hsplit, sumsOf_append_zeros k z _ htl.symm]
     exact hmin _ ⟨htl, fun a ha => hasg'.2 a (List.mem_of_mem_take ha)⟩
 
+/-- non-vacuity: the optimum of `[1, 2, 3]` is the optimum of `[1, 2, 3, 0, 0]` -/
+example : IsOptimalValue .minLargest 2 [1, 2, 3, 0, 0] 3 :=
+  isOptimal_zeros_partial (by decide) 2 opt123
+
+/-- the same without `0 < k`, for a non-empty list of values (which forces `0 < k`) -/
+theorem isOptimal_zeros_of_ne_nil {o : Objective} {k : Nat} {vals : List Nat} {x : Int} (hne : vals ≠ []) (z : Nat)
+    (h : IsOptimalValue o k vals x) : IsOptimalValue o k (vals ++ List.replicate z 0) x := by
+  refine isOptimal_zeros_partial ?_ z h
+  obtain ⟨⟨asg, ⟨hl, hb⟩, _⟩, _⟩ := h
+  match asg, hl, hb with
+  | [], hl, _ => exact absurd (List.length_eq_zero_iff.1 hl.symm) hne
+  | a :: _, _, hb => exact Nat.lt_of_le_of_lt (Nat.zero_le a) (hb a (by simp))
+
+/-- non-vacuity -/
+example : IsOptimalValue .minLargest 2 ([1, 2, 3] ++ List.replicate 4 0) 3 :=
+  isOptimal_zeros_of_ne_nil (by simp) 4 opt123
+
 /-- the original statement fails for zero bins: `0` is the optimum of `[]`, but `[0]` has no optimum -/
 example : IsOptimalValue .minLargest 0 [] 0 ∧ ¬ IsOptimalValue .minLargest 0 ([] ++ List.replicate 1 0) 0 := by
   constructor
@@ -260,18 +314,14 @@ example : IsOptimalValue .minLargest 0 [] 0 ∧ ¬ IsOptimalValue .minLargest 0 
     match asg, hl, hb with
     | [a], _, hb => exact absurd (hb a (by simp)) (by omega)
 
-/-- non-vacuity: the optimum of `[1, 2, 3]` is the optimum of `[1, 2, 3, 0, 0]` -/
-example : IsOptimalValue .minLargest 2 [1, 2, 3, 0, 0] 3 := by
-  exact isOptimal_zeros_partial (by decide) 2 opt123
-
 /-- zero-valued items inserted anywhere: any list that is a permutation of `vals` plus `z` zeros -/
 theorem isOptimal_zeros_anywhere {o : Objective} {k : Nat} {vals vals' : List Nat} {x : Int} (hk : 0 < k) (z : Nat)
     (hp : vals'.Perm (vals ++ List.replicate z 0)) (h : IsOptimalValue o k vals x) : IsOptimalValue o k vals' x :=
   isOptimal_perm hp.symm (isOptimal_zeros_partial hk z h)
 
 /-- non-vacuity -/
-example : IsOptimalValue .minLargest 2 [0, 3, 1, 0, 2] 3 := by
-  exact isOptimal_zeros_anywhere (by decide) 2 (by decide) opt123
+example : IsOptimalValue .minLargest 2 [0, 3, 1, 0, 2] 3 :=
+  isOptimal_zeros_anywhere (by decide) 2 (by decide) opt123
 
 /-- **B4 for the oracle.** -/
 theorem optValue_zeros (o : Objective) {k : Nat} (hk : 0 < k) (vals : List Nat) (z : Nat) :
@@ -284,5 +334,672 @@ theorem optValue_zeros (o : Objective) {k : Nat} (hk : 0 < k) (vals : List Nat) 
 example : optValue .minDiff 3 ([4, 5, 6, 7, 8] ++ List.replicate 2 0) = optValue .minDiff 3 [4, 5, 6, 7, 8] :=
   optValue_zeros .minDiff (by decide) [4, 5, 6, 7, 8] 2
 
+/-! ## Part A — the heuristics commute with scaling -/
+
+/-- multiply every sum by `c`, keep the contents -/
+def scaleBins (c : Nat) (b : Bins α) : Bins α := ⟨b.sums.map (c * ·), b.lists⟩
+
+@[simp] theorem scaleBins_sums (c : Nat) (b : Bins α) : (scaleBins c b).sums = b.sums.map (c * ·) := rfl
+@[simp] theorem scaleBins_lists (c : Nat) (b : Bins α) : (scaleBins c b).lists = b.lists := rfl
+
+/-! ### generic facts: sorting, `argmin`, the bins operations -/
+
+theorem insertDesc_congr {key key' : α → Nat} (h : ∀ a b, key' a ≤ key' b ↔ key a ≤ key b) (x : α) (l : List α) :
+    insertDesc key' x l = insertDesc key x l := by
+  induction l with
+  | nil => rfl
+  | cons y ys ih => simp only [insertDesc, h, ih]
+
+theorem sortDesc_congr {key key' : α → Nat} (h : ∀ a b, key' a ≤ key' b ↔ key a ≤ key b) (l : List α) :
+    sortDesc key' l = sortDesc key l := by
+  induction l with
+  | nil => rfl
+  | cons x xs ih => simp only [sortDesc, ih, insertDesc_congr h]
+
+/-- the sorted order does not change when the values are multiplied by a positive constant -/
+theorem sortDesc_scale (v : α → Nat) {c : Nat} (hc : 0 < c) (l : List α) :
+    sortDesc (fun a => c * v a) l = sortDesc v l :=
+  sortDesc_congr (fun _ _ => Nat.mul_le_mul_left_iff hc) l
+
+theorem idxOf_map_mul {c : Nat} (hc : 0 < c) (a : Nat) (l : List Nat) :
+    (l.map (c * ·)).idxOf (c * a) = l.idxOf a := by
+  induction l with
+  | nil => simp
+  | cons x xs ih =>
+    simp only [List.map_cons, List.idxOf_cons, ih]
+    have : (c * x == c * a) = (x == a) := by
+      rw [Bool.eq_iff_iff]; simp only [beq_iff_eq]
+      exact ⟨fun h => Nat.eq_of_mul_eq_mul_left hc h, fun h => by rw [h]⟩
+    rw [this]
+
+theorem argmin_scale {c : Nat} (hc : 0 < c) (l : List Nat) : argmin (l.map (c * ·)) = argmin l := by
+  unfold argmin
+  rw [minL_map_mul, idxOf_map_mul hc]
+
+theorem new_scale (c k : Nat) : scaleBins c (Bins.new k : Bins α) = Bins.new k := by
+  simp [scaleBins, Bins.new]
+
+theorem add_scale (v : α → Nat) (c : Nat) (b : Bins α) (x : α) (i : Nat) :
+    (scaleBins c b).add (fun a => c * v a) x i = scaleBins c (b.add v x i) := by
+  simp only [scaleBins, Bins.add, modify_map_mul]
+
+theorem addLast_scale (v : α → Nat) (c : Nat) (b : Bins α) (x : α) :
+    (scaleBins c b).addLast (fun a => c * v a) x = scaleBins c (b.addLast v x) := by
+  simp only [Bins.addLast, add_scale, scaleBins_sums, List.length_map]
+
+theorem addEmpty_scale (c : Nat) (b : Bins α) (n : Nat) :
+    (scaleBins c b).addEmpty n = scaleBins c (b.addEmpty n) := by
+  simp [scaleBins, Bins.addEmpty, Bins.concat, Bins.new]
+
+theorem removeLast_scale (c : Nat) (b : Bins α) (n : Nat) :
+    (scaleBins c b).removeLast n = scaleBins c (b.removeLast n) := by
+  simp [scaleBins, Bins.removeLast]
+
+theorem lastD_map_mul (c : Nat) (l : List Nat) : lastD (l.map (c * ·)) 0 = c * lastD l 0 := by
+  unfold lastD
+  rw [List.getLast?_map]
+  cases l.getLast? <;> simp
+
+theorem headD_map_mul (c : Nat) (l : List Nat) : (l.map (c * ·)).headD 0 = c * l.headD 0 := by
+  cases l <;> simp
+
+theorem lastSum_scale (c : Nat) (b : Bins α) : (scaleBins c b).lastSum = c * b.lastSum := by
+  simp only [Bins.lastSum, scaleBins_sums, lastD_map_mul]
+
+theorem binSum_scale (v : α → Nat) (c : Nat) (l : List α) : binSum (fun a => c * v a) l = c * binSum v l := by
+  unfold binSum
+  rw [← sumL_map_mul, List.map_map]
+  rfl
+
+/-! ### A1: greedy and round-robin -/
+
+theorem greedyStep_scale (v : α → Nat) {c : Nat} (hc : 0 < c) (b : Bins α) (x : α) :
+    greedyStep (fun a => c * v a) (scaleBins c b) x = scaleBins c (greedyStep v b x) := by
+  simp only [greedyStep, scaleBins_sums, argmin_scale hc, add_scale]
+
+theorem foldl_greedyStep_scale (v : α → Nat) {c : Nat} (hc : 0 < c) (xs : List α) (b : Bins α) :
+    xs.foldl (greedyStep (fun a => c * v a)) (scaleBins c b) = scaleBins c (xs.foldl (greedyStep v) b) := by
+  induction xs generalizing b with
+  | nil => rfl
+  | cons x xs ih => simp only [List.foldl_cons, greedyStep_scale v hc, ih]
+
+/-- **A1 (greedy).** -/
+theorem greedy_scale (v : α → Nat) {c : Nat} (hc : 0 < c) (k : Nat) (items : List α) :
+    greedy (fun a => c * v a) k items = scaleBins c (greedy v k items) := by
+  unfold greedy
+  rw [sortDesc_scale v hc, ← foldl_greedyStep_scale v hc, new_scale]
+
+/-- non-vacuity, with the output computed -/
+example : greedy (fun a : Nat => 3 * id a) 2 [4, 5, 6, 7, 8] = scaleBins 3 (greedy id 2 [4, 5, 6, 7, 8]) :=
+  greedy_scale id (by decide) 2 [4, 5, 6, 7, 8]
+
+example : (greedy (fun a : Nat => 3 * id a) 2 [4, 5, 6, 7, 8]).sums = [51, 39] := by decide
+
+theorem rrLoop_scale (v : α → Nat) (c k : Nat) (xs : List α) (b : Bins α) (i : Nat) :
+    rrLoop (fun a => c * v a) k (scaleBins c b) i xs = scaleBins c (rrLoop v k b i xs) := by
+  induction xs generalizing b i with
+  | nil => rfl
+  | cons x xs ih => simp only [rrLoop, add_scale, ih]
+
+/-- **A1 (round-robin).** -/
+theorem roundrobin_scale (v : α → Nat) {c : Nat} (hc : 0 < c) (k : Nat) (items : List α) :
+    roundrobin (fun a => c * v a) k items = scaleBins c (roundrobin v k items) := by
+  unfold roundrobin
+  rw [sortDesc_scale v hc, ← rrLoop_scale, new_scale]
+
+/-- non-vacuity -/
+example : roundrobin (fun a : Nat => 3 * id a) 2 [4, 5, 6, 7, 8] = scaleBins 3 (roundrobin id 2 [4, 5, 6, 7, 8]) :=
+  roundrobin_scale id (by decide) 2 [4, 5, 6, 7, 8]
+
+example : (roundrobin (fun a : Nat => 3 * id a) 2 [4, 5, 6, 7, 8]).sums = [54, 36] := by decide
+
+/-! ### A3: first fit and best fit.
+
+The general form takes an *arbitrary* bin size `B'` for the scaled values and the size `B' / c` for the unscaled
+ones (all sums of scaled values are multiples of `c`); the requested form is the case `B' = c * B`. -/
+
+theorem fits_scale {c : Nat} (hc : 0 < c) (s val B' : Nat) : c * s + c * val ≤ B' ↔ s + val ≤ B' / c := by
+  rw [Nat.le_div_iff_mul_le hc, Nat.add_mul, Nat.mul_comm s, Nat.mul_comm val]
+
+theorem toobig_scale {c : Nat} (hc : 0 < c) (val B' : Nat) : B' < c * val ↔ B' / c < val := by
+  rw [Nat.div_lt_iff_lt_mul hc, Nat.mul_comm]
+
+theorem ffStep_scale' (v : α → Nat) {c : Nat} (hc : 0 < c) (B' : Nat) (b : Bins α) (x : α) :
+    ffStep (fun a => c * v a) B' (scaleBins c b) x = scaleBins c (ffStep v (B' / c) b x) := by
+  unfold ffStep
+  have hf : ((fun s => decide (s + c * v x ≤ B')) ∘ (c * ·)) = fun s => decide (s + v x ≤ B' / c) := by
+    funext s
+    exact decide_eq_decide.2 (fits_scale hc s (v x) B')
+  rw [scaleBins_sums, List.findIdx?_map, hf]
+  cases b.sums.findIdx? (fun s => decide (s + v x ≤ B' / c)) with
+  | some i => exact add_scale v c b x i
+  | none => simp only [List.length_map, addEmpty_scale, add_scale]
+
+theorem ffLoop_scale' (v : α → Nat) {c : Nat} (hc : 0 < c) (B' : Nat) (xs : List α) (b : Bins α) :
+    ffLoop (fun a => c * v a) B' (scaleBins c b) xs = (ffLoop v (B' / c) b xs).map (scaleBins c) := by
+  induction xs generalizing b with
+  | nil => rfl
+  | cons x xs ih =>
+    simp only [ffLoop, toobig_scale hc]
+    split
+    · rfl
+    · rw [ffStep_scale' v hc, ih]
+
+/-- first fit with an arbitrary bin size for the scaled values -/
+theorem ffOnline_scale' (v : α → Nat) {c : Nat} (hc : 0 < c) (B' : Nat) (items : List α) :
+    ffOnline (fun a => c * v a) B' items = (ffOnline v (B' / c) items).map (scaleBins c) := by
+  unfold ffOnline
+  rw [← ffLoop_scale' v hc, new_scale]
+
+/-- **A3 (first fit, online).** -/
+theorem ffOnline_scale (v : α → Nat) {c : Nat} (hc : 0 < c) (B : Nat) (items : List α) :
+    ffOnline (fun a => c * v a) (c * B) items = (ffOnline v B items).map (scaleBins c) := by
+  rw [ffOnline_scale' v hc, Nat.mul_div_cancel_left B hc]
+
+/-- non-vacuity -/
+example : ffOnline (fun a : Nat => 3 * id a) (3 * 10) [4, 5, 6, 7, 8] =
+    (ffOnline id 10 [4, 5, 6, 7, 8]).map (scaleBins 3) :=
+  ffOnline_scale id (by decide) 10 [4, 5, 6, 7, 8]
+
+example : (ffOnline (fun a : Nat => 3 * id a) (3 * 10) [4, 5, 6, 7, 8]).toOption.map (·.sums) =
+    some [27, 18, 21, 24] := by decide
+
+/-- **A3 (first fit, decreasing).** -/
+theorem ffDecreasing_scale (v : α → Nat) {c : Nat} (hc : 0 < c) (B : Nat) (items : List α) :
+    ffDecreasing (fun a => c * v a) (c * B) items = (ffDecreasing v B items).map (scaleBins c) := by
+  unfold ffDecreasing
+  rw [sortDesc_scale v hc, ffOnline_scale v hc]
+
+/-- non-vacuity -/
+example : ffDecreasing (fun a : Nat => 3 * id a) (3 * 10) [4, 5, 6, 7, 8] =
+    (ffDecreasing id 10 [4, 5, 6, 7, 8]).map (scaleBins 3) :=
+  ffDecreasing_scale id (by decide) 10 [4, 5, 6, 7, 8]
+
+example : (ffDecreasing (fun a : Nat => 3 * id a) (3 * 10) [4, 5, 6, 7, 8]).toOption.map (·.sums) =
+    some [24, 21, 30, 15] := by decide
+
+/-- the best-fit scan: same index, scaled new sum -/
+theorem bfScan_scale' {c : Nat} (hc : 0 < c) (val B' : Nat) (ss : List Nat) (i : Nat) (best : Option (Nat × Nat)) :
+    bfScan (c * val) B' (ss.map (c * ·)) i (best.map fun p => (p.1, c * p.2)) =
+      (bfScan val (B' / c) ss i best).map fun p => (p.1, c * p.2) := by
+  induction ss generalizing i best with
+  | nil => rfl
+  | cons s ss ih =>
+    have hle : decide (c * s + c * val ≤ B') = decide (s + val ≤ B' / c) :=
+      decide_eq_decide.2 (fits_scale hc s val B')
+    cases best with
+    | none =>
+      simp only [List.map_cons, bfScan, Option.map_none, hle]
+      rw [← ih]
+      congr 1
+      split <;> simp [Nat.mul_add]
+    | some p =>
+      have hlt : decide (c * p.2 < c * s + c * val) = decide (p.2 < s + val) :=
+        decide_eq_decide.2 (by rw [← Nat.mul_add]; exact Nat.mul_lt_mul_left hc)
+      simp only [List.map_cons, bfScan, Option.map_some, hle, hlt]
+      rw [← ih]
+      congr 1
+      split <;> simp [Nat.mul_add]
+
+theorem bfStep_scale' (v : α → Nat) {c : Nat} (hc : 0 < c) (B' : Nat) (b : Bins α) (x : α) :
+    bfStep (fun a => c * v a) B' (scaleBins c b) x = scaleBins c (bfStep v (B' / c) b x) := by
+  unfold bfStep
+  have h := bfScan_scale' hc (v x) B' b.sums 0 none
+  simp only [Option.map_none] at h
+  rw [scaleBins_sums, h]
+  cases bfScan (v x) (B' / c) b.sums 0 none with
+  | some p => exact add_scale v c b x p.1
+  | none => simp only [Option.map_none, List.length_map, addEmpty_scale, add_scale]
+
+theorem bfLoop_scale' (v : α → Nat) {c : Nat} (hc : 0 < c) (B' : Nat) (xs : List α) (b : Bins α) :
+    bfLoop (fun a => c * v a) B' (scaleBins c b) xs = (bfLoop v (B' / c) b xs).map (scaleBins c) := by
+  induction xs generalizing b with
+  | nil => rfl
+  | cons x xs ih =>
+    simp only [bfLoop, toobig_scale hc]
+    split
+    · rfl
+    · rw [bfStep_scale' v hc, ih]
+
+/-- best fit with an arbitrary bin size for the scaled values -/
+theorem bfOnline_scale' (v : α → Nat) {c : Nat} (hc : 0 < c) (B' : Nat) (items : List α) :
+    bfOnline (fun a => c * v a) B' items = (bfOnline v (B' / c) items).map (scaleBins c) := by
+  unfold bfOnline
+  rw [← bfLoop_scale' v hc, new_scale]
+
+/-- **A3 (best fit, online).** -/
+theorem bfOnline_scale (v : α → Nat) {c : Nat} (hc : 0 < c) (B : Nat) (items : List α) :
+    bfOnline (fun a => c * v a) (c * B) items = (bfOnline v B items).map (scaleBins c) := by
+  rw [bfOnline_scale' v hc, Nat.mul_div_cancel_left B hc]
+
+/-- non-vacuity -/
+example : bfOnline (fun a : Nat => 3 * id a) (3 * 10) [5, 7, 3, 2] =
+    (bfOnline id 10 [5, 7, 3, 2]).map (scaleBins 3) :=
+  bfOnline_scale id (by decide) 10 [5, 7, 3, 2]
+
+example : (bfOnline (fun a : Nat => 3 * id a) (3 * 10) [5, 7, 3, 2]).toOption.map (·.sums) =
+    some [21, 30] := by decide
+
+/-- **A3 (best fit, decreasing).** -/
+theorem bfDecreasing_scale (v : α → Nat) {c : Nat} (hc : 0 < c) (B : Nat) (items : List α) :
+    bfDecreasing (fun a => c * v a) (c * B) items = (bfDecreasing v B items).map (scaleBins c) := by
+  unfold bfDecreasing
+  rw [sortDesc_scale v hc, bfOnline_scale v hc]
+
+/-- non-vacuity -/
+example : bfDecreasing (fun a : Nat => 3 * id a) (3 * 10) [4, 5, 3, 6, 2] =
+    (bfDecreasing id 10 [4, 5, 3, 6, 2]).map (scaleBins 3) :=
+  bfDecreasing_scale id (by decide) 10 [4, 5, 3, 6, 2]
+
+example : (bfDecreasing (fun a : Nat => 3 * id a) (3 * 10) [4, 5, 3, 6, 2]).toOption.map (·.sums) =
+    some [30, 30] := by decide
+
+/-! ### A4: the covering heuristics -/
+
+theorem closeIfFull_scale {c : Nat} (hc : 0 < c) (B : Nat) (b : Bins α) :
+    closeIfFull (c * B) (scaleBins c b) = scaleBins c (closeIfFull B b) := by
+  unfold closeIfFull
+  rw [lastSum_scale, addEmpty_scale]
+  simp only [Nat.mul_le_mul_left_iff hc]
+  split <;> rfl
+
+theorem coverStep_scale (v : α → Nat) {c : Nat} (hc : 0 < c) (B : Nat) (b : Bins α) (x : α) :
+    coverStep (fun a => c * v a) (c * B) (scaleBins c b) x = scaleBins c (coverStep v B b x) := by
+  have h := closeIfFull_scale hc B (b.addLast v x)
+  unfold closeIfFull at h
+  unfold coverStep
+  simp only [addLast_scale]
+  exact h
+
+theorem decrSub_scale (v : α → Nat) {c : Nat} (hc : 0 < c) (B : Nat) (xs : List α) (b : Bins α) :
+    decrSub (fun a => c * v a) (c * B) (scaleBins c b) xs = scaleBins c (decrSub v B b xs) := by
+  unfold decrSub
+  induction xs generalizing b with
+  | nil => rfl
+  | cons x xs ih => simp only [List.foldl_cons, coverStep_scale v hc, ih]
+
+/-- **A4 (greedy covering, decreasing).** -/
+theorem coverDecreasing_scale (v : α → Nat) {c : Nat} (hc : 0 < c) (B : Nat) (items : List α) :
+    coverDecreasing (fun a => c * v a) (c * B) items = scaleBins c (coverDecreasing v B items) := by
+  unfold coverDecreasing
+  rw [sortDesc_scale v hc, ← removeLast_scale, ← decrSub_scale v hc, new_scale]
+
+/-- non-vacuity -/
+example : coverDecreasing (fun a : Nat => 3 * id a) (3 * 10) [4, 5, 6, 7, 8, 3] =
+    scaleBins 3 (coverDecreasing id 10 [4, 5, 6, 7, 8, 3]) :=
+  coverDecreasing_scale id (by decide) 10 [4, 5, 6, 7, 8, 3]
+
+example : (coverDecreasing (fun a : Nat => 3 * id a) (3 * 10) [4, 5, 6, 7, 8, 3]).sums = [45, 33] := by decide
+
+theorem fillFromSmall_scale (v : α → Nat) {c : Nat} (hc : 0 < c) (B : Nat) (fuel : Nat) (b : Bins α)
+    (items : List α) :
+    fillFromSmall (fun a => c * v a) (c * B) fuel (scaleBins c b) items =
+      (scaleBins c (fillFromSmall v B fuel b items).1, (fillFromSmall v B fuel b items).2) := by
+  induction fuel generalizing b items with
+  | zero => rfl
+  | succ fuel ih =>
+    simp only [fillFromSmall, lastSum_scale, Nat.mul_lt_mul_left hc]
+    split
+    · cases items.getLast? with
+      | none => rfl
+      | some x => simp only [addLast_scale, ih]
+    · rfl
+
+theorem twoThirdsLoop_scale (v : α → Nat) {c : Nat} (hc : 0 < c) (B : Nat) (fuel : Nat) (b : Bins α)
+    (items : List α) :
+    twoThirdsLoop (fun a => c * v a) (c * B) fuel (scaleBins c b) items =
+      scaleBins c (twoThirdsLoop v B fuel b items) := by
+  induction fuel generalizing b items with
+  | zero => rfl
+  | succ fuel ih =>
+    cases items with
+    | nil => rfl
+    | cons x rest =>
+      simp only [twoThirdsLoop, addLast_scale, fillFromSmall_scale v hc, closeIfFull_scale hc, ih]
+
+/-- **A4 (two-thirds covering).** -/
+theorem twoThirds_scale (v : α → Nat) {c : Nat} (hc : 0 < c) (B : Nat) (items : List α) :
+    twoThirds (fun a => c * v a) (c * B) items = scaleBins c (twoThirds v B items) := by
+  unfold twoThirds
+  simp only [sortDesc_scale v hc]
+  rw [← removeLast_scale, ← twoThirdsLoop_scale v hc, new_scale]
+
+/-- non-vacuity -/
+example : twoThirds (fun a : Nat => 3 * id a) (3 * 10) [4, 5, 6, 7, 8, 3] =
+    scaleBins 3 (twoThirds id 10 [4, 5, 6, 7, 8, 3]) :=
+  twoThirds_scale id (by decide) 10 [4, 5, 6, 7, 8, 3]
+
+example : (twoThirds (fun a : Nat => 3 * id a) (3 * 10) [4, 5, 6, 7, 8, 3]).sums = [33, 33, 33] := by decide
+
+theorem isBig_scale (v : α → Nat) {c : Nat} (hc : 0 < c) (B : Nat) :
+    isBig (fun a => c * v a) (c * B) = isBig v B := by
+  funext x
+  unfold isBig
+  exact decide_eq_decide.2 (by rw [Nat.mul_left_comm]; exact Nat.mul_le_mul_left_iff hc)
+
+theorem isMedium_scale (v : α → Nat) {c : Nat} (hc : 0 < c) (B : Nat) :
+    isMedium (fun a => c * v a) (c * B) = isMedium v B := by
+  funext x
+  unfold isMedium
+  congr 1
+  · exact decide_eq_decide.2 (by rw [Nat.mul_left_comm]; exact Nat.mul_le_mul_left_iff hc)
+  · exact decide_eq_decide.2 (by rw [Nat.mul_left_comm]; exact Nat.mul_lt_mul_left hc)
+
+theorem isSmall_scale (v : α → Nat) {c : Nat} (hc : 0 < c) (B : Nat) :
+    isSmall (fun a => c * v a) (c * B) = isSmall v B := by
+  funext x
+  unfold isSmall
+  exact decide_eq_decide.2 (by rw [Nat.mul_left_comm]; exact Nat.mul_lt_mul_left hc)
+
+theorem foldl_addLast_scale (v : α → Nat) (c : Nat) (xs : List α) (b : Bins α) :
+    xs.foldl (Bins.addLast (fun a => c * v a)) (scaleBins c b) = scaleBins c (xs.foldl (Bins.addLast v) b) := by
+  induction xs generalizing b with
+  | nil => rfl
+  | cons x xs ih => simp only [List.foldl_cons, addLast_scale, ih]
+
+theorem threeQuartersLoop_scale (v : α → Nat) {c : Nat} (hc : 0 < c) (B : Nat) (fuel : Nat) (b : Bins α)
+    (big med small : List α) :
+    threeQuartersLoop (fun a => c * v a) (c * B) fuel (scaleBins c b) big med small =
+      scaleBins c (threeQuartersLoop v B fuel b big med small) := by
+  induction fuel generalizing b big med small with
+  | zero => rfl
+  | succ fuel ih =>
+    simp only [threeQuartersLoop, binSum_scale, Nat.mul_le_mul_left_iff hc]
+    split
+    · simp only [decrSub_scale v hc]
+    · split
+      · simp only [decrSub_scale v hc]
+      · by_cases hb : binSum v (med.take 2) ≤ binSum v (big.take 1)
+        · simp only [hb, decide_true, if_true, foldl_addLast_scale, fillFromSmall_scale v hc,
+            closeIfFull_scale hc, ih]
+        · simp only [hb, decide_false, Bool.false_eq_true, if_false, foldl_addLast_scale,
+            fillFromSmall_scale v hc, closeIfFull_scale hc, ih]
+
+/-- **A4 (three-quarters covering).** -/
+theorem threeQuarters_scale (v : α → Nat) {c : Nat} (hc : 0 < c) (B : Nat) (items : List α) :
+    threeQuarters (fun a => c * v a) (c * B) items = scaleBins c (threeQuarters v B items) := by
+  unfold threeQuarters
+  simp only [sortDesc_scale v hc, isBig_scale v hc, isMedium_scale v hc, isSmall_scale v hc]
+  rw [← removeLast_scale, ← threeQuartersLoop_scale v hc, new_scale]
+
+/-- non-vacuity -/
+example : threeQuarters (fun a : Nat => 3 * id a) (3 * 10) [4, 5, 6, 7, 8, 3, 2, 1, 1] =
+    scaleBins 3 (threeQuarters id 10 [4, 5, 6, 7, 8, 3, 2, 1, 1]) :=
+  threeQuarters_scale id (by decide) 10 [4, 5, 6, 7, 8, 3, 2, 1, 1]
+
+example : (threeQuarters (fun a : Nat => 3 * id a) (3 * 10) [4, 5, 6, 7, 8, 3, 2, 1, 1]).sums = [30, 36, 33] := by
+  decide
+
+/-! ### A2: Karmarkar–Karp -/
+
+theorem insertAsc_map {β γ : Type} (f : β → γ) {key : β → Nat} {key' : γ → Nat}
+    (h : ∀ a b, key' (f a) ≤ key' (f b) ↔ key a ≤ key b) (x : β) (l : List β) :
+    insertAsc key' (f x) (l.map f) = (insertAsc key x l).map f := by
+  induction l with
+  | nil => rfl
+  | cons y ys ih =>
+    simp only [List.map_cons, insertAsc, h]
+    split
+    · rfl
+    · rw [ih]; rfl
+
+theorem sortAsc_map {β γ : Type} (f : β → γ) {key : β → Nat} {key' : γ → Nat}
+    (h : ∀ a b, key' (f a) ≤ key' (f b) ↔ key a ≤ key b) (l : List β) :
+    sortAsc key' (l.map f) = (sortAsc key l).map f := by
+  induction l with
+  | nil => rfl
+  | cons x xs ih => simp only [List.map_cons, sortAsc, ih, insertAsc_map f h]
+
+theorem sortAsc_scaleBins {c : Nat} (hc : 0 < c) (b : Bins α) :
+    (scaleBins c b).sortAsc = scaleBins c b.sortAsc := by
+  unfold Bins.sortAsc
+  simp only [scaleBins_sums, scaleBins_lists, List.zip_map_left]
+  rw [sortAsc_map (Prod.map (c * ·) id) (key := fun p : Nat × List α => p.1)
+    (fun a b => Nat.mul_le_mul_left_iff hc)]
+  simp only [scaleBins, List.map_map]
+  rfl
+
+/-- a heap entry with all sums (hence the difference) multiplied by `c` -/
+def scaleEntry (c : Nat) (e : HEntry α) : HEntry α := ⟨c * e.diff, e.cnt, scaleBins c e.bins⟩
+
+theorem hpush_scale {c : Nat} (hc : 0 < c) (h : Heap α) (cnt : Nat) (b : Bins α) :
+    hpush (h.map (scaleEntry c)) cnt (scaleBins c b) = ((hpush h cnt b).1.map (scaleEntry c), (hpush h cnt b).2) := by
+  simp only [hpush, sortAsc_scaleBins hc, scaleBins_sums, lastD_map_mul, headD_map_mul, List.map_append,
+    List.map_cons, List.map_nil, scaleEntry, Nat.mul_sub]
+
+theorem before_scale {c : Nat} (hc : 0 < c) (e1 e2 : HEntry α) :
+    (scaleEntry c e1).before (scaleEntry c e2) = e1.before e2 := by
+  have h1 : (c * e2.diff < c * e1.diff) ↔ (e2.diff < e1.diff) := Nat.mul_lt_mul_left hc
+  have h2 : (c * e1.diff = c * e2.diff) ↔ (e1.diff = e2.diff) := Nat.mul_left_cancel_iff hc
+  show (decide (c * e2.diff < c * e1.diff) || (decide (c * e1.diff = c * e2.diff) && decide (e1.cnt < e2.cnt))) =
+    (decide (e2.diff < e1.diff) || (decide (e1.diff = e2.diff) && decide (e1.cnt < e2.cnt)))
+  rw [decide_eq_decide.2 h1, decide_eq_decide.2 h2]
+
+theorem hbestAux_scale {c : Nat} (hc : 0 < c) (es : List (HEntry α)) (i bi : Nat) (be : HEntry α) :
+    hbestAux (es.map (scaleEntry c)) i bi (scaleEntry c be) = hbestAux es i bi be := by
+  induction es generalizing i bi be with
+  | nil => rfl
+  | cons e es ih =>
+    simp only [List.map_cons, hbestAux, before_scale hc]
+    split <;> exact ih _ _ _
+
+theorem hbest_scale {c : Nat} (hc : 0 < c) (h : Heap α) :
+    hbest (h.map (scaleEntry c)) = (hbest h).map fun p => (p.1, scaleEntry c p.2) := by
+  cases h with
+  | nil => rfl
+  | cons e es =>
+    simp only [List.map_cons, hbest, hbestAux_scale hc]
+    rw [← List.map_cons, List.getElem?_map]
+    cases (e :: es)[hbestAux es 1 0 e]? <;> rfl
+
+theorem htop_scale {c : Nat} (hc : 0 < c) (h : Heap α) :
+    htop (h.map (scaleEntry c)) = (htop h).map (scaleEntry c) := by
+  unfold htop
+  rw [hbest_scale hc]
+  cases hbest h <;> rfl
+
+theorem removeAt_map {β γ : Type} (f : β → γ) (l : List β) (i : Nat) :
+    removeAt (l.map f) i = (removeAt l i).map f := by
+  simp [removeAt]
+
+theorem hpop_scale {c : Nat} (hc : 0 < c) (h : Heap α) :
+    hpop (h.map (scaleEntry c)) = (hpop h).map fun p => (scaleEntry c p.1, p.2.map (scaleEntry c)) := by
+  unfold hpop
+  rw [hbest_scale hc]
+  cases hbest h with
+  | none => rfl
+  | some p => simp only [Option.map_some, removeAt_map]
+
+theorem single_scale (v : α → Nat) (c k : Nat) (x : α) :
+    single (fun a => c * v a) k x = scaleBins c (single v k x) := by
+  unfold single
+  rw [← add_scale, new_scale]
+
+theorem pushAll_scale (v : α → Nat) {c : Nat} (hc : 0 < c) (k : Nat) (xs : List α) (h : Heap α) (cnt : Nat) :
+    pushAll (fun a => c * v a) k xs (h.map (scaleEntry c)) cnt =
+      ((pushAll v k xs h cnt).1.map (scaleEntry c), (pushAll v k xs h cnt).2) := by
+  induction xs generalizing h cnt with
+  | nil => rfl
+  | cons x xs ih => simp only [pushAll, single_scale, hpush_scale hc, ih]
+
+theorem kkCombine_scale (c : Nat) (b1 b2 : Bins α) :
+    kkCombine (scaleBins c b1) (scaleBins c b2) = scaleBins c (kkCombine b1 b2) := by
+  simp only [kkCombine, scaleBins, ← List.map_reverse, List.zipWith_map, List.map_zipWith, Nat.mul_add]
+
+theorem kkLoop_scale {c : Nat} (hc : 0 < c) (n : Nat) (h : Heap α) (cnt : Nat) :
+    kkLoop n (h.map (scaleEntry c)) cnt = (kkLoop n h cnt).map (scaleEntry c) := by
+  induction n generalizing h cnt with
+  | zero => rfl
+  | succ n ih =>
+    simp only [kkLoop, hpop_scale hc]
+    cases hpop h with
+    | none => rfl
+    | some p1 =>
+      simp only [Option.map_some, hpop_scale hc]
+      cases hpop p1.2 with
+      | none => rfl
+      | some p2 =>
+        simp only [Option.map_some]
+        have : (scaleEntry c p1.1).bins = scaleBins c p1.1.bins := rfl
+        have : (scaleEntry c p2.1).bins = scaleBins c p2.1.bins := rfl
+        simp only [*, kkCombine_scale, hpush_scale hc]
+
+/-- **A2 (Karmarkar–Karp).** -/
+theorem kk_scale (v : α → Nat) {c : Nat} (hc : 0 < c) (k : Nat) (items : List α) :
+    kk (fun a => c * v a) k items = (kk v k items).map (scaleBins c) := by
+  unfold kk
+  have hp := pushAll_scale v hc k (sortDesc v items) [] 0
+  simp only [List.map_nil] at hp
+  simp only [sortDesc_scale v hc, hp, kkLoop_scale hc, htop_scale hc]
+  cases htop (kkLoop ((sortDesc v items).length - 1) (pushAll v k (sortDesc v items) [] 0).1
+    (pushAll v k (sortDesc v items) [] 0).2) <;> rfl
+
+/-- non-vacuity -/
+example : kk (fun a : Nat => 3 * id a) 3 [4, 5, 6, 7, 8] = (kk id 3 [4, 5, 6, 7, 8]).map (scaleBins 3) :=
+  kk_scale id (by decide) 3 [4, 5, 6, 7, 8]
+
+example : (kk (fun a : Nat => 3 * id a) 3 [4, 5, 6, 7, 8]).toOption.map (·.sums) = some [24, 33, 33] := by decide
+
+/-! ### A5: multifit (rational capacities) -/
+
+theorem le_floorNat_iff {t : Nat} (ht : 0 < t) (q : Rat) : t ≤ floorNat q ↔ (t : Rat) ≤ q := by
+  unfold floorNat
+  rw [← Rat.intCast_natCast, ← Rat.le_floor_iff]
+  omega
+
+/-- `⌊⌊c q⌋ / c⌋ = ⌊q⌋` -/
+theorem floorNat_scale {c : Nat} (hc : 0 < c) (q : Rat) : floorNat ((c : Rat) * q) / c = floorNat q := by
+  have key : ∀ t : Nat, t ≤ floorNat ((c : Rat) * q) / c ↔ t ≤ floorNat q := by
+    intro t
+    rw [Nat.le_div_iff_mul_le hc]
+    cases t with
+    | zero => simp
+    | succ t =>
+      have hc' : (0 : Rat) < c := Rat.natCast_pos.2 hc
+      rw [le_floorNat_iff (Nat.mul_pos (Nat.succ_pos t) hc), le_floorNat_iff (Nat.succ_pos t), Rat.natCast_mul,
+        Rat.mul_comm]
+      exact ⟨fun h => Rat.le_of_mul_le_mul_left h hc', fun h => Rat.mul_le_mul_of_nonneg_left h (Rat.le_of_lt hc')⟩
+  exact Nat.le_antisymm ((key _).1 (Nat.le_refl _)) ((key _).2 (Nat.le_refl _))
+
+/-- first fit with a rational capacity: scaling values and capacity -/
+theorem ffOnline_floorNat_scale (v : α → Nat) {c : Nat} (hc : 0 < c) (cap : Rat) (items : List α) :
+    ffOnline (fun a => c * v a) (floorNat ((c : Rat) * cap)) items =
+      (ffOnline v (floorNat cap) items).map (scaleBins c) := by
+  rw [ffOnline_scale' v hc, floorNat_scale hc]
+
+theorem ffCount_scale (v : α → Nat) {c : Nat} (hc : 0 < c) (cap : Rat) (items : List α) :
+    ffCount (fun a => c * v a) ((c : Rat) * cap) items = ffCount v cap items := by
+  unfold ffCount
+  rw [ffOnline_floorNat_scale v hc]
+  cases ffOnline v (floorNat cap) items with
+  | error e => rfl
+  | ok b => simp [Except.map]
+
+theorem ratMax_scale {c : Rat} (hc : 0 < c) (a b : Rat) : ratMax (c * a) (c * b) = c * ratMax a b := by
+  unfold ratMax
+  by_cases h : a ≤ b
+  · rw [if_pos h, if_pos (Rat.mul_le_mul_of_nonneg_left h (Rat.le_of_lt hc))]
+  · rw [if_neg h, if_neg (fun h' => h (Rat.le_of_mul_le_mul_left h' hc))]
+
+theorem mid_scale (c lo hi : Rat) : (c * lo + c * hi) / 2 = c * ((lo + hi) / 2) := by
+  rw [← Rat.mul_add, Rat.div_def, Rat.div_def, Rat.mul_assoc]
+
+theorem multifitSearch_scale (v : α → Nat) {c : Nat} (hc : 0 < c) (k : Nat) (sorted : List α) (it : Nat)
+    (lo hi : Rat) :
+    multifitSearch (fun a => c * v a) k sorted it ((c : Rat) * lo) ((c : Rat) * hi) =
+      (multifitSearch v k sorted it lo hi).map ((c : Rat) * ·) := by
+  induction it generalizing lo hi with
+  | zero => rfl
+  | succ it ih =>
+    simp only [multifitSearch, mid_scale, ffCount_scale v hc]
+    cases ffCount v ((lo + hi) / 2) sorted with
+    | error e => rfl
+    | ok n =>
+      simp only
+      split
+      · exact ih _ _
+      · exact ih _ _
+
+/-- **A5 (multifit).** -/
+theorem multifit_scale (v : α → Nat) {c : Nat} (hc : 0 < c) (k : Nat) (items : List α) (it : Nat) :
+    multifit (fun a => c * v a) k items it = (multifit v k items it).map (scaleBins c) := by
+  have hc' : (0 : Rat) < c := Rat.natCast_pos.2 hc
+  have hmap : items.map (fun a => c * v a) = (items.map v).map (c * ·) := by
+    rw [List.map_map]; rfl
+  have hlo : ratMax (((c : Rat) * (sumL (items.map v) : Nat)) / k) ((c : Rat) * (maxL (items.map v) : Nat)) =
+      (c : Rat) * ratMax (((sumL (items.map v) : Nat) : Rat) / k) (maxL (items.map v) : Nat) := by
+    rw [← ratMax_scale hc', Rat.div_def, Rat.div_def, Rat.mul_assoc]
+  have hhi : ratMax ((2 * ((c : Rat) * (sumL (items.map v) : Nat))) / k) ((c : Rat) * (maxL (items.map v) : Nat)) =
+      (c : Rat) * ratMax ((2 * ((sumL (items.map v) : Nat) : Rat)) / k) (maxL (items.map v) : Nat) := by
+    rw [← ratMax_scale hc', Rat.div_def, Rat.div_def, ← Rat.mul_assoc 2, Rat.mul_comm 2, Rat.mul_assoc (c : Rat),
+      Rat.mul_assoc (c : Rat)]
+  unfold multifit
+  simp only [hmap, sumL_map_mul, maxL_map_mul, Rat.natCast_mul, hlo, hhi, sortDesc_scale v hc,
+    multifitSearch_scale v hc]
+  cases multifitSearch v k (sortDesc v items) it
+      (ratMax (((sumL (items.map v) : Nat) : Rat) / k) (maxL (items.map v) : Nat))
+      (ratMax ((2 * ((sumL (items.map v) : Nat) : Rat)) / k) (maxL (items.map v) : Nat)) with
+  | error e => rfl
+  | ok cap => exact ffOnline_floorNat_scale v hc cap _
+
+/-- non-vacuity -/
+example : multifit (fun a : Nat => 3 * id a) 3 [4, 5, 6, 7, 8] 10 =
+    (multifit id 3 [4, 5, 6, 7, 8] 10).map (scaleBins 3) :=
+  multifit_scale id (by decide) 3 [4, 5, 6, 7, 8] 10
+
+/-- multifit never fails (`Part.multifit_valid`), so both sides above are `.ok`: -/
+example : ∃ b, multifit id 3 [4, 5, 6, 7, 8] 10 = .ok b ∧
+    multifit (fun a : Nat => 3 * id a) 3 [4, 5, 6, 7, 8] 10 = .ok (scaleBins 3 b) := by
+  obtain ⟨b, hb, _⟩ := Part.multifit_valid id 3 [4, 5, 6, 7, 8] 10
+  exact ⟨b, hb, by rw [multifit_scale id (by decide), hb]; rfl⟩
+
 end Prtpy.Scale
+
+/-
+Axiom audit (output of `#print axioms` observed with `lake env lean PrtpyProofs/Scale.lean`):
+
+#print axioms Prtpy.Scale.value_scale
+  'Prtpy.Scale.value_scale' depends on axioms: [propext, Quot.sound]
+#print axioms Prtpy.Scale.isOptimal_scale
+  'Prtpy.Scale.isOptimal_scale' depends on axioms: [propext, Quot.sound]
+#print axioms Prtpy.Scale.optValue_scale
+  'Prtpy.Scale.optValue_scale' depends on axioms: [propext, Classical.choice, Quot.sound]
+#print axioms Prtpy.Scale.isOptimal_perm
+  'Prtpy.Scale.isOptimal_perm' depends on axioms: [propext, Classical.choice, Quot.sound]
+#print axioms Prtpy.Scale.optValue_perm
+  'Prtpy.Scale.optValue_perm' depends on axioms: [propext, Classical.choice, Quot.sound]
 #print axioms Prtpy.Scale.isOptimal_zeros_partial
+  'Prtpy.Scale.isOptimal_zeros_partial' depends on axioms: [propext, Quot.sound]
+#print axioms Prtpy.Scale.isOptimal_zeros_anywhere
+  'Prtpy.Scale.isOptimal_zeros_anywhere' depends on axioms: [propext, Classical.choice, Quot.sound]
+#print axioms Prtpy.Scale.optValue_zeros
+  'Prtpy.Scale.optValue_zeros' depends on axioms: [propext, Classical.choice, Quot.sound]
+#print axioms Prtpy.Scale.greedy_scale
+  'Prtpy.Scale.greedy_scale' depends on axioms: [propext, Quot.sound]
+#print axioms Prtpy.Scale.roundrobin_scale
+  'Prtpy.Scale.roundrobin_scale' depends on axioms: [propext]
+#print axioms Prtpy.Scale.kk_scale
+  'Prtpy.Scale.kk_scale' depends on axioms: [propext, Classical.choice, Quot.sound]
+#print axioms Prtpy.Scale.ffOnline_scale
+  'Prtpy.Scale.ffOnline_scale' depends on axioms: [propext, Quot.sound]
+#print axioms Prtpy.Scale.ffDecreasing_scale
+  'Prtpy.Scale.ffDecreasing_scale' depends on axioms: [propext, Quot.sound]
+#print axioms Prtpy.Scale.bfOnline_scale
+  'Prtpy.Scale.bfOnline_scale' depends on axioms: [propext, Classical.choice, Quot.sound]
+#print axioms Prtpy.Scale.bfDecreasing_scale
+  'Prtpy.Scale.bfDecreasing_scale' depends on axioms: [propext, Classical.choice, Quot.sound]
+#print axioms Prtpy.Scale.ffOnline_scale
+  'Prtpy.Scale.ffOnline_scale'' depends on axioms: [propext, Quot.sound]
+#print axioms Prtpy.Scale.bfOnline_scale
+  'Prtpy.Scale.bfOnline_scale'' depends on axioms: [propext, Classical.choice, Quot.sound]
+#print axioms Prtpy.Scale.coverDecreasing_scale
+  'Prtpy.Scale.coverDecreasing_scale' depends on axioms: [propext]
+#print axioms Prtpy.Scale.twoThirds_scale
+  'Prtpy.Scale.twoThirds_scale' depends on axioms: [propext, Classical.choice, Quot.sound]
+#print axioms Prtpy.Scale.threeQuarters_scale
+  'Prtpy.Scale.threeQuarters_scale' depends on axioms: [propext, Classical.choice, Quot.sound]
+#print axioms Prtpy.Scale.multifit_scale
+  'Prtpy.Scale.multifit_scale' depends on axioms: [propext, Classical.choice, Quot.sound]
+#print axioms Prtpy.Scale.isOptimal_zeros_of_ne_nil
+  'Prtpy.Scale.isOptimal_zeros_of_ne_nil' depends on axioms: [propext, Quot.sound]
+-/
